@@ -205,20 +205,20 @@ Proof.
     + discriminate.
 Qed.
 
-(* ---------- parse_constants: the typed groups; untyped names at the end are dropped (finding D45) ---------- *)
+(* ---------- parse_constants: names without a type are of type object ---------- *)
 Lemma parse_constants_aux_spec tt : forall n toks same acc r,
   List.length toks <= n ->
   parse_constants_aux tt toks same false acc = Ok r ->
   forall names rows, atom_names toks = Some names -> read_typed_list names same = Some rows ->
-  dupdate r (map (fun c => (c, "object")) (trailing_untyped names same)) = dupdate acc rows.
+  r = dupdate acc rows.
 Proof.
   induction n as [|n IH]; intros toks same acc r Hlen H names rows Hn Hr.
   - destruct toks; [|simpl in Hlen; lia]. simpl in H. injection H as <-.
-    injection Hn as <-. simpl in Hr. injection Hr as <-. reflexivity.
+    injection Hn as <-. simpl in Hr. injection Hr as <-. apply fold_dset_const.
   - destruct toks as [|[t|sub] rest]; simpl in H.
-    + injection H as <-. injection Hn as <-. simpl in Hr. injection Hr as <-. reflexivity.
+    + injection H as <-. injection Hn as <-. simpl in Hr. injection Hr as <-. apply fold_dset_const.
     + rewrite atom_names_cons_atom in Hn. destruct (atom_names rest) as [xs|] eqn:Exs; [|discriminate].
-      injection Hn as <-. simpl in Hr. simpl trailing_untyped.
+      injection Hn as <-. simpl in Hr.
       destruct (String.eqb t "-") eqn:Edash.
       * destruct rest as [|[ty|sub] rest']; simpl in H.
         -- injection Exs as <-. discriminate.
@@ -238,7 +238,7 @@ Qed.
 Lemma parse_constants_spec tt toks r names rows :
   parse_constants tt toks = Ok r ->
   atom_names toks = Some names -> read_typed_list names [] = Some rows ->
-  dupdate r (map (fun c => (c, "object")) (trailing_untyped names [])) = dict_of rows.
+  r = dict_of rows.
 Proof. intros H. apply (parse_constants_aux_spec tt _ toks [] [] r (le_n _) H). Qed.
 
 Lemma parse_constants_aux_atoms tt : forall toks same marker acc r,
